@@ -4,12 +4,15 @@ CONSTANTS
   Paths <- PathsQ
   Keys <- KeysQ
   MaxOps = 5
+  TemplateDims = {1, 2}
   OverwriteRule = "documented"
 SPECIFICATION Spec
 INVARIANT C16_StatsAreBagSum
 INVARIANT C16_CountIsBagSize
 INVARIANT C17_FileHoldsWhatWasSaved
 INVARIANT C17_KeysDistinct
+INVARIANT C17_SavedStatsHaveData
+PROPERTY C17_RefusedSaveChangesNothing
 PROPERTY C16_DimMismatchIsNoChange
 PROPERTY C17_OverwriteRule
 CHECK_DEADLOCK FALSE
